@@ -354,9 +354,34 @@ fn timed_case(t: &mut Tape, obs: &mut Obs) -> CaseResult {
         let mut ctl = SimulatorPhy::new(baud, "tx");
         let mut rx = ctl.duplicate("rx");
         let mut noop_tx = 0u64;
+        let mut noise = 0u64;
         let mut got: Vec<RefFrame> = vec![];
         let mut now = Instant::ZERO;
         for tel in &tels {
+            if jit.below(5) == 0 {
+                // line noise while the receiver is not polling: one or two bursts of bytes that start no
+                // telegram (together possibly more than one telegram can be long); a single poll afterwards
+                // discards all of it, and the telegram that follows separately is received
+                let bursts = 1 + jit.below(2);
+                for _ in 0..bursts {
+                    let n = 1 + jit.below(250) as usize;
+                    now += Duration::from_micros(baud.bits_to_time(40).total_micros() + 1);
+                    ctl.set_bus_time(now);
+                    ctl.transmit_data(now, |b| {
+                        b[..n].fill(0x55);
+                        (n, ())
+                    });
+                    now += Duration::from_micros(byte_us(n) + 2);
+                    ctl.set_bus_time(now);
+                }
+                if use_all {
+                    rx.receive_all_telegrams(now, |tel, _| got.push(to_ref(&tel)));
+                } else if let Some(x) = rx.receive_telegram(now, |tel| to_ref(&tel)) {
+                    got.push(x);
+                }
+                ensure!(rx.poll_pending_received_bytes(now) == 0, "noise-not-discarded", "SimulatorPhy: {} bytes still pending after the poll that met the line noise", rx.poll_pending_received_bytes(now));
+                noise += 1;
+            }
             // leave 40 bit times of pause, as the simulator demands for any kind of telegram
             now += Duration::from_micros(baud.bits_to_time(40).total_micros() + 1 + jit.below(200));
             ctl.set_bus_time(now);
@@ -404,6 +429,9 @@ fn timed_case(t: &mut Tape, obs: &mut Obs) -> CaseResult {
         ensure!(got == expect, "sequence", "SimulatorPhy: received {:?}, expected {:?}", got, expect);
         if noop_tx > 0 {
             obs.label("receiver-made-empty-transmit-calls");
+        }
+        if noise > 0 {
+            obs.label("line-noise-before-a-telegram");
         }
     }
     obs.label(if use_all { "receive_all_telegrams" } else { "receive_telegram" });
